@@ -89,11 +89,29 @@ def encoder(ctx):
   ctx.ob('FRAME/end-ceil', ff, edefs[0], ok, 'end frame = ceil(end * fps)' if ok else 'the end frame is %s of %s, not ceil(end_time * frames_per_second)' % (cls, norm_text(inner)))
   last = edefs[-1]
   ok = isinstance(last.value, ast.Call) and dotted(last.value.func) == 'max' and len(last.value.args) == 2
+  definite = False
+  why_bad = 'the final end frame is not max(start_frame + 1, end_frame): a note may get no frame'
   if ok:
     args = [nf.rat(a) for a in last.value.args]
     ok = any(a.equals(nf.rat(E(sname + ' + 1'))) for a in args) and any(a.equals(nf.rat(E(ename))) for a in args)
     ok = ok and ff.node.body.index(last) == len(ff.node.body) - 2
-  ctx.ob('FRAME/at-least-one', ff, last, ok, 'end frame = max(start + 1, end), applied last' if ok else 'the final end frame is not max(start_frame + 1, end_frame): a note may get no frame')
+  # sibling idiom: `if <end does not exceed start>: end = start + 1` as the last statement before the return
+  g = ff.node.body[-2] if len(ff.node.body) >= 2 and isinstance(ff.node.body[-2], ast.If) and not ff.node.body[-2].orelse else None
+  if not ok and g is not None and len(g.body) == 1 and isinstance(g.body[0], ast.Assign) and norm_text(g.body[0].targets[0]) == ename:
+    try:
+      sets = nf.rat(g.body[0].value).equals(nf.rat(E(sname + ' + 1')))
+      c = nf.compare_nf(g.test)
+      if sets and c is not None:
+        if nf.compare_equal(c, nf.compare_nf(E('%s <= %s' % (ename, sname)))):
+          ok, last = True, g
+        else:
+          # the clamp was located, its condition is one comparison of the two frames, and it is not "end <= start"
+          definite, last = True, g
+          why_bad = ('the one-frame minimum is applied only when %s, not whenever end_frame <= start_frame: a note whose end frame falls below its start frame gets no frame' %
+                     norm_text(g.test))
+    except nf.NFError:
+      pass
+  ctx.ob('FRAME/at-least-one', ff, last, ok, 'the end frame is raised to start + 1 whenever it does not exceed the start frame, as the last step' if ok else why_bad, definite=definite)
   # occupancy adjustments only under min_frame_occupancy_for_label > 0
   adj = [s for s in ff.node.body if isinstance(s, ast.If)]
   ok = all('0.0 < min_frame_occupancy_for_label' in norm_text(s.test) for s in adj)
